@@ -14,6 +14,8 @@ def INCLUDE(name):
 
 def replay(ob):
     from props import C05, C09
+    if "folding.split_to_sequence." in ob["name"]:
+        return "import sys\nsys.path.insert(0, '/verif')\nfrom replay_lib.opt_native import main\nmain(['split_to_sequence_keepdims'])\n"
     if "predates_the_implemented_semantics" in ob["name"]:
         return "import sys\nsys.path.insert(0, '/verif')\nfrom replay_lib.opt_native import main\nmain(['softmax_old_opset'])\n"
     if "unresolved_attribute_reference" in ob["name"]:
